@@ -31,12 +31,12 @@ fn kani_concrete_playback_vk_c06_agree_divide_I_I_11495397963500439757() {
 /// Check for `cover`: "vk_reached"
 
 #[test]
-fn kani_concrete_playback_vk_c06_agree_divide_I_I_5418201631956502352() {
+fn kani_concrete_playback_vk_c06_agree_divide_I_I_13493778262038264353() {
     let concrete_vals: Vec<Vec<u8>> = vec![
-        // 3
-        vec![3, 0],
         // 0
         vec![0, 0],
+        // 24320
+        vec![0, 95],
     ];
     kani::concrete_playback_run(concrete_vals, vk_c06_agree_divide_I_I);
 }
